@@ -194,3 +194,18 @@ Proof. split; eexists; vm_compute; reflexivity. Qed.
 (** the die condition *)
 Example C06_dies_instance : solve_left_model 0 true exA (mzero 3 1) = None.
 Proof. reflexivity. Qed.
+
+(** ** closed form for the library's own PLUQ route (block-recursive PLE with any cutoff): no hypothesis left
+    (replaces the `_cfg_partial` statement of SolveProofs2.v now that Alg/PLEProofs10.v proves the recursion) *)
+From M4 Require Import Alg.SolveClosed.
+Theorem C06_solve_left_cfg : forall ple_cutoff cutoff A B,
+  wf A -> wf B -> nr B = Nat.max (nr A) (nc A) ->
+  match solve_left_cfg ple_cutoff cutoff true A B with
+  | Some (ret, B') =>
+      (ret = 0%Z \/ ret = (-1)%Z) /\
+      (ret = 0%Z <-> exists X, wf X /\ nr X = nc A /\ nc X = nc B /\ mmul (pad A) X = B) /\
+      (ret = 0%Z -> wf B' /\ nr B' = nr B /\ nc B' = nc B /\ mmul A (top (nc A) B') = top (nr A) B)
+  | None => False
+  end.
+Proof. exact solve_verdict_cfg. Qed.
+Print Assumptions C06_solve_left_cfg.
